@@ -88,9 +88,9 @@ REFINE = {
     "C06": ["SigCore", "SigSchemes", "WSig", "G06"], "C07": ["SigSchemes", "WSig", "G07"], "C08": ["SigCore", "WSig", "G08"],
     "C09": ["SigSchemes", "WSig", "WCodec", "G09"], "C10": ["PoK", "WPoK", "G10"], "C11": ["HelpersR", "SignCrypt", "WEnc", "G11"],
     "C12": ["SignCrypt", "SigCore", "WEnc", "G12"], "C13": ["HelpersR", "TimeLock", "WEnc", "G13"], "C14": ["ElGamal", "Consts", "WEnc", "G14"],
-    "C15": ["HelpersR", "Consts", "WCodec", "WEnum"], "C16": ["HelpersR", "Consts", "WCodec", "WEnum"], "C17": ["HelpersR", "PoK", "SignCrypt", "TimeLock", "WSig", "WPoK", "WEnc", "WCodec", "WEnum"],
-    "C18": ["HelpersR", "Consts", "PoK", "SignCrypt", "TimeLock", "ElGamal", "WEnc", "WCodec"], "C19": ["HelpersR"],
-    "C20": ["PoK", "SignCrypt", "TimeLock", "WSig", "WPoK", "WEnc", "WEnum"],
+    "C15": ["HelpersR", "Consts", "WCodec", "WEnum", "G15"], "C16": ["HelpersR", "Consts", "WCodec", "WEnum", "G16"], "C17": ["HelpersR", "PoK", "SignCrypt", "TimeLock", "WSig", "WPoK", "WEnc", "WCodec", "WEnum", "G17"],
+    "C18": ["HelpersR", "Consts", "PoK", "SignCrypt", "TimeLock", "ElGamal", "WEnc", "WCodec", "G18"], "C19": ["HelpersR"],
+    "C20": ["PoK", "SignCrypt", "TimeLock", "WSig", "WPoK", "WEnc", "WEnum", "G20"],
 }
 
 
